@@ -227,12 +227,14 @@ def _segments(ctx, prog):
         pe = per_element(segs)
         ok = False
         why = fmt(segs)
+        recognised = False
         if pe is not None:
             elt, lid, it, conds = pe
             if not conds and is_call_to(it, "builtins.zip") and \
                     len(it.args[1]) == n and is_call_to(
                         elt, "builtins.list") and is_call_to(
                         elt.args[1][0], "builtins.zip"):
+                recognised = True
                 inner = elt.args[1][0].args[1]
                 ok = len(inner) == n
                 for k in range(n):
@@ -250,6 +252,12 @@ def _segments(ctx, prog):
                     ok = ok and okk
                     if not okk:
                         why = f"axis {k}: {fmt(src)}"
+        if not recognised:
+            ctx.undecidable("C20.3", e, f"{'3-D' if three else '2-D'} "
+                            f"segments are not built as per-axis vertex "
+                            f"pairs zipped together (other construction): "
+                            f"{why[:160]}")
+            continue
         ctx.ob("C20.3", e, ok,
                f"{'3-D' if three else '2-D'} segments: vertex pairs "
                f"(xyz[:-1:step], xyz[1::step]) per axis idx_k, zipped in "
